@@ -750,6 +750,19 @@ func c19Specials() []c19Inst {
 		{Alpha: nt, Rows: rows{{"a_long_sequence_name_1", "ACG"}, {"a_long_sequence_name_2", "A-G"}}},
 		{Alpha: nt, Rows: rows{{"a", "AUGuaa.?*"}, {"b", "augUAANX-"}}},
 		{Alpha: aa, Rows: rows{{"a", "MK*X.?bzJ"}, {"b", "mkOUBZ-xL"}}},
+		// the form DiffWithFirst produces: '.' in rows other than the first
+		{Alpha: nt, Rows: rows{{"a", "ACGT"}, {"b", ".C.T"}, {"c", "A..."}}},
+		{Alpha: aa, Rows: rows{{"a", "MKLV"}, {"b", "..I."}, {"c", "...."}}},
+		{Alpha: nt, Rows: rows{{"a", "A.GT"}, {"b", "....."[:4]}, {"c", "-.N*"}}},
+		// containers built through the API whose alphabet was never detected
+		{Alpha: align.UNKNOWN, Rows: rows{{"a", "ACGT"}, {"b", "AC-T"}}},
+		{Alpha: align.UNKNOWN, Rows: rows{{"a", "MKLV"}, {"b", "MQ-V"}}},
+		{Bag: true, Alpha: align.UNKNOWN, Rows: rows{{"a", "ACGT"}, {"b", "ACT"}}},
+		{Bag: true, Alpha: align.UNKNOWN, Rows: rows{{"a", "MKLV"}, {"b", "MQ"}}},
+		// alphabet set against the content
+		{Alpha: aa, Rows: rows{{"a", "ACGT"}, {"b", "AC-T"}}},
+		{Alpha: nt, Rows: rows{{"a", "MKLV"}, {"b", "MQ-V"}}},
+		{Alpha: align.BOTH, Rows: rows{{"a", "ACGT"}, {"b", "AC-T"}}},
 	}
 }
 
